@@ -291,7 +291,36 @@ def run_while(frame, st):
     run_with_contract(frame, st, spec, ctx, test=st.test)
 
 
+class _Guarded(object):
+    """a loop contract whose own evaluation is shielded: a contract that names a local the code no longer has (a renamed
+    temporary, a restructured loop) is a limitation of the contract - *unsupported*, hence undecided - and never a program
+    exception of the code under verification"""
+
+    def __init__(self, spec, key):
+        self._spec, self._key = spec, key
+
+    def __getattr__(self, name):
+        attr = getattr(self._spec, name)
+        if not callable(attr):
+            return attr
+        key = self._key
+
+        def call(*a, **k):
+            try:
+                return attr(*a, **k)
+            except E.PyRaise as pr:
+                cls = getattr(getattr(pr, 'exc', None), 'cls', None)
+                if cls is not None and issubclass(cls, (NameError, KeyError, AttributeError, UnboundLocalError)):
+                    raise E.Unsupported('the loop contract of %s loop#%d does not fit the current code (%s while evaluating the contract)'
+                                        % (key[0], key[1], cls.__name__))
+                raise
+            except (KeyError, AttributeError) as ex:
+                raise E.Unsupported('the loop contract of %s loop#%d does not fit the current code (%s)' % (key[0], key[1], type(ex).__name__))
+        return call
+
+
 def run_with_contract(frame, st, spec, ctx, target=None, test=None):
+    spec = _Guarded(spec, ctx.key)
     P = E.cur()
     where = '%s loop#%d' % ctx.key
     for name, goal in spec.entry(frame, ctx):
@@ -532,6 +561,48 @@ def _set_path(frame, path, val):
         I.setattr_(o, parts[-1], val)
 
 
+def loop_carried_names(frame, stmt):
+    """locals that exist before the loop and are modified inside it (assignment, augmented assignment, or a mutating
+    method call such as .append): the loop-carried state, as opposed to temporaries born inside the body"""
+    mutators = {'append', 'extend', 'insert', 'add', 'update', 'pop', 'remove', 'clear'}
+    modified = set()
+    for n in ast.walk(stmt):
+        if isinstance(n, ast.Name) and isinstance(n.ctx, ast.Store):
+            modified.add(n.id)
+        elif isinstance(n, ast.AugAssign) and isinstance(n.target, ast.Name):
+            modified.add(n.target.id)
+        elif isinstance(n, ast.Call) and isinstance(n.func, ast.Attribute) and n.func.attr in mutators and isinstance(n.func.value, ast.Name):
+            modified.add(n.func.value.id)
+    before = set()
+    for n in ast.walk(frame.node):
+        if isinstance(n, ast.Name) and isinstance(n.ctx, ast.Store) and getattr(n, 'lineno', 10 ** 9) < stmt.lineno:
+            before.add(n.id)
+    if hasattr(stmt, 'target'):
+        modified -= {x.id for x in ast.walk(stmt.target) if isinstance(x, ast.Name)}
+    return modified & before
+
+
+def remap_contract_names(frame, ctx, names):
+    """{contract name -> name in the current code}: identity for names the function still has; ONE contract name that
+    disappeared is matched with the ONE loop-carried local the contract does not mention (a renamed temporary). Anything
+    less clear-cut is left alone (the guarded evaluation then reports the contract as not fitting: undecided)"""
+    present = {n.id for n in ast.walk(frame.node) if isinstance(n, ast.Name)} | {a.arg for a in ast.walk(frame.node) if isinstance(a, ast.arg)}
+    roots = {n.split('.')[0] for n in names}
+    missing = [r for r in roots if r not in present]
+    mapping = {r: r for r in roots}
+    if len(missing) == 1 and getattr(ctx, 'stmt', None) is not None:
+        cands = loop_carried_names(frame, ctx.stmt) - roots
+        if len(cands) == 1:
+            mapping[missing[0]] = next(iter(cands))
+    return mapping
+
+
+def _apply_map(path, mapping):
+    parts = path.split('.')
+    parts[0] = mapping.get(parts[0], parts[0])
+    return '.'.join(parts)
+
+
 class FunctionalLoop(object):
     """loop contract in functional form: the value of every variable the loop modifies, as a function of the
     number k of completed iterations, plus universally quantified facts about the completed iterations.
@@ -543,8 +614,13 @@ class FunctionalLoop(object):
     force = False
 
     def __init__(self, state, qfacts=None, facts=None, temporaries=()):
-        self._state, self._qfacts, self._facts = state, qfacts, facts
+        self._raw_state, self._qfacts, self._facts = state, qfacts, facts
         self.temporaries = set(temporaries)
+
+    def _state(self, frame, ctx, k):
+        d = self._raw_state(frame, ctx, k)
+        mapping = remap_contract_names(frame, ctx, list(d))
+        return {_apply_map(p, mapping): v for p, v in d.items()}
 
     def entry(self, frame, ctx):
         from . import vc
@@ -625,9 +701,10 @@ class HavocLoop(object):
     def entry(self, frame, ctx):
         return self._inv_list(frame)
 
-    def _havoc(self, frame):
+    def _havoc(self, frame, ctx=None):
         P = E.cur()
-        for path in self.variables:
+        mapping = remap_contract_names(frame, ctx, self.variables) if ctx is not None else {}
+        for path in [_apply_map(p, mapping) for p in self.variables]:
             cur = _get_path(frame, path)
             if isinstance(cur, (SInt, SBool)) or (isinstance(cur, int) and not isinstance(cur, bool)):
                 _set_path(frame, path, SInt(V.fresh_int('hv_' + path.replace('.', '_'))))
@@ -658,13 +735,13 @@ class HavocLoop(object):
             P.assume(f)
 
     def arbitrary(self, frame, ctx, k):
-        self._havoc(frame)
+        self._havoc(frame, ctx)
 
     def after(self, frame, ctx, k):
         return self._inv_list(frame)
 
     def exit(self, frame, ctx):
-        self._havoc(frame)
+        self._havoc(frame, ctx)
         st = ctx.stmt
         names = assigned_names(st.body) | (assigned_names([st.target]) if hasattr(st, 'target') else set())
         keep = {p.split('.')[0] for p in self.variables}
